@@ -127,9 +127,25 @@ func c08Vary(c *core.Ctx, x *gen.Spec, dns bool) (y *gen.Spec, aspect string) {
 			}
 			aspect = "ctag"
 		case 9:
-			if len(x.Clients) == 0 {
+			switch {
+			case len(x.Clients) == 0:
 				y.Clients = []gen.Client{gen.ClientNames[0]}
-			} else {
+			case c.Rng.Intn(2) == 0:
+				// One more entry that changes nothing about WHICH clients match
+				// (a prefix inside a listed prefix, a listed address again): it
+				// is another value of the modifier all the same.
+				for _, cl := range x.Clients {
+					if cl.IsNet && cl.Prefix.Bits() < cl.Prefix.Addr().BitLen() {
+						inner := netip.PrefixFrom(cl.Prefix.Addr(), cl.Prefix.Bits()+8).Masked()
+						y.Clients = append(y.Clients, gen.Client{Text: inner.String(), Prefix: inner, IsNet: true, Neg: cl.Neg})
+
+						break
+					}
+				}
+				if len(y.Clients) == len(x.Clients) {
+					y.Clients = append(y.Clients, x.Clients[0])
+				}
+			default:
 				y.Clients = append(y.Clients, gen.Client{Text: "extra-client", Name: "extra-client"})
 			}
 			aspect = "client"
